@@ -86,6 +86,13 @@ pub fn spawn_shards(args: &[String], n: u64, procs: usize) -> (std::path::PathBu
 pub struct Heartbeat {
     /// (beat counter, description of the current input, its bytes)
     pub current: std::sync::Arc<Mutex<(u64, String, Vec<u8>)>>,
+    stop: std::sync::Arc<std::sync::atomic::AtomicBool>,
+}
+
+impl Drop for Heartbeat {
+    fn drop(&mut self) {
+        self.stop.store(true, Ordering::SeqCst);
+    }
 }
 
 impl Heartbeat {
@@ -93,10 +100,15 @@ impl Heartbeat {
         let current = std::sync::Arc::new(Mutex::new((0u64, String::new(), Vec::new())));
         let c2 = current.clone();
         let out = out.to_string();
+        let stop = std::sync::Arc::new(std::sync::atomic::AtomicBool::new(false));
+        let stop2 = stop.clone();
         std::thread::spawn(move || {
             let mut last = (u64::MAX, Instant::now());
             loop {
                 std::thread::sleep(std::time::Duration::from_millis(500));
+                if stop2.load(Ordering::SeqCst) {
+                    return;
+                }
                 let n = c2.lock().map(|g| g.0).unwrap_or(0);
                 if n != last.0 {
                     last = (n, Instant::now());
@@ -108,7 +120,7 @@ impl Heartbeat {
                 }
             }
         });
-        Heartbeat { current }
+        Heartbeat { current, stop }
     }
     pub fn beat(&self, what: &str, bytes: &[u8]) {
         if let Ok(mut g) = self.current.lock() {
